@@ -1216,14 +1216,24 @@ func c15OnlyEOFIsClean(ctx *core.Ctx, r *RT) {
 		if !cycleReaches(fn, isExec) {
 			continue
 		}
-		for _, g := range localCone(fn, 1) {
+		for _, g := range localCone(fn, 2) {
 			if g != fn {
-				// predicate helpers only
+				// predicate helpers, and helpers the read error is handed to (the error
+				// path of the loop, extracted)
 				res := g.Signature.Results()
-				if res.Len() != 1 {
-					continue
+				isPred := false
+				if res.Len() == 1 {
+					if b, ok := res.At(0).Type().Underlying().(*types.Basic); ok && b.Kind() == types.Bool {
+						isPred = true
+					}
 				}
-				if b, ok := res.At(0).Type().Underlying().(*types.Basic); !ok || b.Kind() != types.Bool {
+				takesErr := false
+				for i := 0; i < g.Signature.Params().Len(); i++ {
+					if isErrorType(g.Signature.Params().At(i).Type()) {
+						takesErr = true
+					}
+				}
+				if !isPred && !takesErr {
 					continue
 				}
 			}
